@@ -354,6 +354,63 @@ func runC04(c *Ctx) {
 		}
 	}
 	c.Check(fname(searchFn)+"#returns-lower-bound", searchFn.Pos(), okSearch, ifelse(okSearch, "returns i ∈ [0, n]", "search no longer returns its lower bound"))
+
+	// the complement of the VRF ratio used in the upper tail is formed exactly (big.Float) before it is rounded
+	c.sites++
+	isFloat64Of := func(v ssa.Value, pred func(recv ssa.Value) bool) bool {
+		return derivesFrom(v, func(x ssa.Value) bool {
+			cc, ok := x.(*ssa.Call)
+			if !ok {
+				return false
+			}
+			o := calleeObj(cc)
+			return o != nil && o.Name() == "Float64" && recvName(o) == "Float" && o.Pkg() != nil && o.Pkg().Path() == "math/big" && pred(callRecv(cc))
+		})
+	}
+	lossy := ""
+	for _, fn := range withClosures(choose) {
+		for _, b := range fn.Blocks {
+			for _, in := range b.Instrs {
+				bo, ok := in.(*ssa.BinOp)
+				if !ok || bo.Op != token.SUB {
+					continue
+				}
+				if bt, isB := bo.Type().Underlying().(*types.Basic); !isB || bt.Kind() != types.Float64 {
+					continue
+				}
+				if isFloat64Of(bo.X, func(ssa.Value) bool { return true }) || isFloat64Of(bo.Y, func(ssa.Value) bool { return true }) {
+					lossy = w.Pos(bo.Pos())
+				}
+			}
+		}
+	}
+	exact := false
+	for _, in := range allInstrs(choose) {
+		mc, ok := in.(*ssa.MakeClosure)
+		if !ok {
+			continue
+		}
+		for _, bnd := range mc.Bindings {
+			if isFloat64Of(bnd, func(recv ssa.Value) bool {
+				return derivesFrom(recv, func(x ssa.Value) bool {
+					cc, ok := x.(*ssa.Call)
+					return ok && calleeObj(cc) != nil && calleeObj(cc).Name() == "Sub" && recvName(calleeObj(cc)) == "Float"
+				})
+			}) {
+				exact = true
+			}
+		}
+	}
+	okPrec := lossy == "" && exact
+	c.Check(fname(choose)+"#upper-tail-complement-exact", choose.Pos(), okPrec, ifelse(okPrec, "the mirrored search compares a complement formed with big.Float.Sub before rounding; no float64 subtraction takes a rounded big.Float", "the complement 1 − ratio is (also) formed in float64 from the already rounded ratio ("+lossy+"): for a VRF output within 2^-53 of the maximum it is 0, and the mirrored search returns a seat count far above the binomial quantile"))
+}
+
+func allInstrs(fn *ssa.Function) []ssa.Instruction {
+	var out []ssa.Instruction
+	for _, b := range fn.Blocks {
+		out = append(out, b.Instrs...)
+	}
+	return out
 }
 
 func derivesFromOrCalls(v ssa.Value, call ssa.CallInstruction) bool {
